@@ -47,12 +47,14 @@ func copyTree(src, dst string) error {
 
 // generatedOnDisk: layouts (by note) that are rendered into the scratch vod root next to the bundled assets.
 var generatedOnDisk = []string{"plain-av", "loop-whole-ms-90k", "loop-not-whole-ms-90k", "loop-1001-odd", "loop-one-tick-off",
-	"two-video-same", "two-video-differ", "two-video-differ-1ms", "time-plain", "thumbs", "gap-in-files", "two-mpds", "video-text", "text-shorter"}
+	"two-video-same", "two-video-differ", "two-video-differ-1ms", "time-plain", "thumbs", "gap-in-files", "two-mpds", "video-text", "text-shorter",
+	"time-audio-plain", "time-audio-gap", "time-audio-overlap", "time-audio-second-later", "number-video-time-audio-gap"}
 
 // expected admission of the generated layouts (property text: not a whole number of ms, or
 // representations of the reference type disagree => left out)
 var expectLeftOut = map[string]bool{"loop-not-whole-ms-90k": true, "loop-1001-odd": true, "loop-one-tick-off": true,
-	"two-video-differ": true, "two-video-differ-1ms": true, "text-shorter": true}
+	"two-video-differ": true, "two-video-differ-1ms": true, "text-shorter": true,
+	"time-audio-gap": true, "time-audio-overlap": true, "time-audio-second-later": true, "number-video-time-audio-gap": true}
 
 func setupVod(vod string) error {
 	if err := copyTree(lib.TestVodRoot, vod); err != nil {
